@@ -339,6 +339,10 @@ def run_shard(spec_, res):
     finally:
         sys.unraisablehook = old_hook
         shutil.rmtree(tdir, ignore_errors=True)
+    if spec_["tier"] == "thorough" and spec_["shard"] == 0:
+        # restore the real reader first: the plugin run happens in a separate interpreter anyway
+        from ._repo_suite import ambient_under_repo_tests
+        ambient_under_repo_tests(res, PROPERTY, ["strictness_restored"])
     res.count("unraisable_exceptions", len(unraisable))
     if spec_["shard"] == 0:
         res.sample({"file": spec_["files"][0], "fault": "io", "point": 17, "source": "bytesio", "initial_flag": False})
